@@ -213,6 +213,10 @@ func c17RunVariant(e *c17Env, f c17Family, o c17Output, s c17Script, variant str
 		out = c17DecodeNative(rec.status, rec.body.String(), stream)
 	}
 	out.Calls = e.runner.calls
+	if e.reqSeen == nil {
+		e.reqSeen = map[string]bool{}
+	}
+	e.reqSeen[e.runner.lastPrompt+"\x00"+e.runner.lastFormat+"\x00"+strings.Join(e.runner.lastStop, "\x00")] = true
 	return out
 }
 
@@ -486,18 +490,21 @@ func c17RunCase(e *c17Env, f c17Family, o c17Output, s c17Script, r *evid.Run) {
 		callbacks++
 	}
 	r.Add("runner_scripts", 1)
+	// non-trivial: the runner made at least two callbacks (the output was really split,
+	// or something was delivered before the failure)
+	if callbacks >= 2 {
+		r.Distinct("nontrivial", string(key))
+	}
 	for v, out := range outs {
 		r.Eval()
 		r.Add("requests_"+strings.ReplaceAll(strings.TrimSuffix(v, "+usage"), "/", "_"), 1)
-		// non-trivial: the runner made at least two callbacks (the output was really split,
-		// or something was delivered before the failure)
-		if callbacks >= 2 {
-			r.Distinct("nontrivial", string(key)+v)
-		}
 		tb, _ := json.Marshal(out.T)
 		r.Distinct("outcome", v+out.End+string(tb))
 	}
-	r.Distinct("runner_request", e.runner.lastPrompt+"\x00"+e.runner.lastFormat+"\x00"+strings.Join(e.runner.lastStop, "\x00"))
+	for k := range e.reqSeen {
+		r.Distinct("runner_request", k) // distinct (prompt, format, stop) triples the runner was asked for
+	}
+	clear(e.reqSeen)
 	if r.WantSample() {
 		r.Sample(map[string]any{"case": cs, "callbacks": c17Desc(f, o, s), "outcome_native_stream": outs["native/stream"].T, "end_native_stream": outs["native/stream"].End})
 	} else {
@@ -592,6 +599,10 @@ func c17Replay(path string) {
 		fmt.Println("replay:", err)
 		os.Exit(2)
 	}
+	if c.Family.Kind != "generate" && c.Family.Kind != "chat" {
+		fmt.Println("replay: this file does not describe a (family, output, script) case (a worker crash record?); re-run `vx check C17` instead")
+		os.Exit(2)
+	}
 	base := fmt.Sprintf("/dev/shm/verif-c17-%d", os.Getpid())
 	os.Setenv("VERIF_C17_DIR", base)
 	code := func() int {
@@ -660,11 +671,13 @@ func ZZVerifC17() {
 	signal.Notify(sigc, syscall.SIGINT, syscall.SIGTERM, syscall.SIGHUP)
 	go func() { <-sigc; cleanup(); os.Exit(2) }()
 
-	r.Rule("case = (request family, model output, runner script); family = generate{raw} / chat{tools} x format{-,json} x stop{-,set}; " +
-		"runner script = every chunking of the output at rune boundaries (all 2^(L-1) chunkings for outputs of <= 10 runes, all chunkings with <= D cuts for longer ones) x final Done callback with/without content, " +
-		"plus every failing script (k chunks covering a prefix delivered, then Completion returns an error; all boundary choices, k <= L for short outputs, k <= D for longer ones). " +
-		"Every case is sent as native non-stream, native stream (raw NDJSON), api.Client non-stream, api.Client stream, and where the endpoint exists /v1/completions or /v1/chat/completions non-stream, stream, stream+include_usage, through the real gin router, scheduler and handlers; evaluations counts these HTTP requests. " +
-		"Non-trivial = the runner made >= 2 callbacks (the output was really split, or something was delivered before the failure); distinct_nontrivial counts distinct (case, variant).")
+	r.Rule("case = (request family, model output, runner script); family = generate{raw} / chat{tools} x format{-,json} x stop{-,set} (16 families); " +
+		"runner script = a chunking of the output at rune boundaries x final Done callback with/without content, or a failing script (k chunks covering a prefix are delivered, then Completion returns an error; every choice of the k boundaries). " +
+		"Depth: in the 4 families without format/stop every chunking (all 2^(L-1)) and every failing script of outputs of <= 10 runes; for longer outputs every chunking / failing script with <= D cuts / delivered chunks, " +
+		"D = bounds.max_cuts_long_outputs in the chat+tools family (the only handler that looks into the text; bounds.max_cuts_tool_outputs_up_to_34_runes... for its outputs of <= 34 runes) and for the output 'tool-call' in the other three, D = bounds.max_cuts_long_outputs_where_text_is_opaque... for the remaining long outputs there; " +
+		"in the 12 families with format and/or stop (pass-through dimensions) <= bounds.max_cuts_long_outputs_where_text_is_opaque... cuts for long and <= bounds.max_cuts_short_outputs_in_format_stop_families cuts for short outputs. " +
+		"Every case is sent as native non-stream, native stream (raw NDJSON), api.Client non-stream, api.Client stream (stream field omitted), and where the endpoint exists (/v1/completions has neither raw nor format) as OpenAI non-stream, stream, stream+include_usage, through the real gin router, scheduler and handlers; evaluations counts these HTTP requests, runner_scripts the cases. " +
+		"Non-trivial = the runner made >= 2 callbacks (the output was really split, or something was delivered before the failure); distinct_nontrivial counts the distinct non-trivial cases (each of them is executed in 4 or 7 variants).")
 	r.Assume(
 		"runner contract (llm.LlamaServer.Completion as implemented by llm/server.go): content callbacks, then either one Done callback as the last callback and a nil return, or a non-nil error before any Done callback; a runner that returns nil without Done, or fails after Done, is outside the enumerated space",
 		"chunks are valid UTF-8 (the bundled runner holds back incomplete UTF-8 sequences), so outputs are split at rune boundaries only",
